@@ -2,7 +2,7 @@
    Only statements here; each is closed by `exact <lemma>` from proofs/P_box.v / P_pointcloud.v. *)
 From Coq Require Import ZArith Reals List Bool Sorted Permutation.
 From PW Require Import Num NumR Vec NpList Result.
-From PW.model Require Import M_plane M_box M_pointcloud.
+From PW.model Require Import M_plane M_box M_box_spec M_pointcloud.
 From PW.proofs Require Import P_plane P_box P_pointcloud.
 Import ListNotations.
 Local Open Scope R_scope.
@@ -19,10 +19,6 @@ Theorem C17_from_points_contains_all : forall ps b, from_points ROps ps = Ok b -
 Proof. exact from_points_contains_all. Qed.
 Theorem C17_from_points_empty_rejected : from_points ROps [] = Raise ValueError.
 Proof. exact from_points_empty. Qed.
-Theorem C17_bounding_box_is_from_points : forall vs,
-  (vs = [] -> bounding_box ROps vs = None) /\ (vs <> [] -> bounding_box ROps vs = Some (from_points ROps vs)).
-Proof. exact bounding_box_spec. Qed.
-
 (* ---- constructor --------------------------------------------------------------------------------------------- *)
 Theorem C17_negative_size_rejected : forall o s,
   (vx s < 0 \/ vy s < 0 \/ vz s < 0 -> box_ctor ROps o s = Raise ValueError) /\
@@ -88,17 +84,26 @@ Theorem C17_extent_too_few_rejected : forall ps, (length ps < 2)%nat -> extent R
 Proof. exact extent_too_few. Qed.
 
 (* ---- percentile -------------------------------------------------------------------------------------------------- *)
-(* the result lies on the line through the centroid along the unit axis u and its coordinate along u is the
-   percentile value of the points' coordinates along u *)
-Theorem C17_percentile_point_spec : forall ps axis q, ps <> [] -> almost_zero ROps axis = false ->
+(* PARTIAL: the result lies on the line through the centroid along the unit axis u and its coordinate along u is the
+   percentile value of the points' coordinates along u -- for axes that are not "almost zero" (some |component| > 1e-8).
+   Missing: the property says "all non-zero axes"; for a non-zero axis with all |components| <= 1e-8 the code raises
+   ValueError (vg.almost_zero is an absolute test), see the _refuted theorem below and known_findings/C17.json. *)
+Theorem C17_percentile_point_spec_partial : forall ps axis q, ps <> [] -> almost_zero ROps axis = false -> 0 <= q <= 100 ->
   let u := vnormalize ROps axis in let c := centroid ROps ps in
   let sel := percentile_value ROps (map (fun p => vdot ROps p u) ps) q in
   exists r, percentile ROps ps axis q = Ok r /\ vnorm2 ROps u = 1 /\
             r = vadd ROps c (vscale ROps (sel - vdot ROps c u) u) /\ vdot ROps r u = sel.
 Proof. exact percentile_point_spec. Qed.
+(* "all non-zero axes" is false of the code: a non-zero axis below vg.almost_zero's absolute threshold is rejected
+   (witness: two points, axis (1e-9, 0, 0), q = 50) *)
+Theorem C17_percentile_tiny_axis_rejected_refuted :
+  exists ps axis q, ps <> [] /\ axis <> V3 0 0 0 /\ 0 <= q <= 100 /\ percentile ROps ps axis q = Raise ValueError.
+Proof. exact percentile_tiny_axis_rejected. Qed.
+(* errors: empty cloud, almost-zero axis, percentile outside [0, 100] (np.percentile's own check) *)
 Theorem C17_percentile_errors : forall ps axis q,
   (ps = [] -> percentile ROps ps axis q = Raise ValueError) /\
-  (almost_zero ROps axis = true -> percentile ROps ps axis q = Raise ValueError).
+  (almost_zero ROps axis = true -> percentile ROps ps axis q = Raise ValueError) /\
+  (q < 0 \/ 100 < q -> percentile ROps ps axis q = Raise ValueError).
 Proof. exact percentile_errors. Qed.
 (* the sort inside the percentile is a sorted permutation of the coordinates *)
 Theorem C17_percentile_sort_is_sorted_permutation : forall l,
@@ -124,13 +129,22 @@ Theorem C17_percentile_value_at_rank : forall l,
   (forall x, In x l -> List.nth 0 (isort ROps l) 0 <= x <= List.nth (length l - 1) (isort ROps l) 0).
 Proof. exact percentile_value_at_rank. Qed.
 
+(* definitional: pins the shape of the model; the content is carried by the traced ties / correspondence
+   (the correspondence calls Polyline(...).bounding_box on empty and non-empty polylines) *)
+Theorem C17_bounding_box_is_from_points : forall vs,
+  (vs = [] -> bounding_box ROps vs = None) /\ (vs <> [] -> bounding_box ROps vs = Some (from_points ROps vs)).
+Proof. exact bounding_box_spec. Qed.
+
 (* non-vacuity *)
+Example C17_axis_inhabited : almost_zero ROps (V3 1 0 0) = false.
+Proof. exact almost_zero_example. Qed.
 Example C17_box_inhabited : nonneg_size (MkBox (V3 1 2 3) (V3 1 (1/2) 0)).
 Proof. exact box_example. Qed.
 
 Definition C17_all := (C17_from_points_tight, C17_from_points_contains_all, C17_from_points_empty_rejected,
   C17_bounding_box_is_from_points, C17_negative_size_rejected, C17_accessor_identities, C17_ranges, C17_corners,
   C17_planes_inward_through_faces, C17_plane_signed_distances, C17_contains_iff_six_planes,
-  C17_extent_is_max_pair, C17_extent_too_few_rejected, C17_percentile_point_spec, C17_percentile_errors,
+  C17_extent_is_max_pair, C17_extent_too_few_rejected, C17_percentile_point_spec_partial,
+  C17_percentile_tiny_axis_rejected_refuted, C17_percentile_errors,
   C17_percentile_sort_is_sorted_permutation, C17_percentile_value_spec, C17_percentile_value_at_rank).
 Print Assumptions C17_all.
